@@ -873,18 +873,25 @@ func genServe(r *c.Rng) c.Case {
 		sr.Ep = "callback"
 		nonce := "nonce-1234"
 		redirect := "https://" + authHost + "/sign_in?redirect_uri=" + url.QueryEscape(goodURI(r, sr.Domains))
-		switch r.Intn(6) {
-		case 0:
+		switch r.Intn(8) {
+		case 0, 1:
 			redirect = genURI(r, sr.Domains)
-		case 1:
-			redirect = "https://app.evil.org/x"
 		case 2:
+			redirect = "https://app.evil.org/x"
+		case 3, 4:
 			redirect = goodURI(r, sr.Domains)
+		case 5:
+			d := strings.TrimLeft(r.Pick(sr.Domains), ".")
+			redirect = "https://sso-auth." + d + "/sign_in?redirect_uri=" + url.QueryEscape(goodURI(r, sr.Domains)) + "&code=x"
 		}
 		sr.CbStateRaw = base64.URLEncoding.EncodeToString([]byte(nonce + ":" + redirect))
 		csrf := nonce
 		sr.CbCSRF = &csrf
-		switch r.Intn(14) {
+		k := 99
+		if r.Chance(0.4) {
+			k = r.Intn(10)
+		}
+		switch k {
 		case 0:
 			sr.CbCSRF = nil
 		case 1:
